@@ -113,6 +113,8 @@ func (e *engine) runC10History() {
 		mh(0, append(append([]byte(nil), msgs[1]...), 0x1a, 0x05, 0x01)), // valid key message + truncated trailing field: rejected late
 		mh(0, append([]byte{0x08, 0x02, 0x12, 0x20}, msgs[1][4:]...)),    // all fields set, unsupported key type
 		mh(0x12, e.rng.Bytes(32)),                                        // sha2-256 multihash (no key)
+		mh(0x12, msgs[2]),                                                // NON-identity code around a valid key message
+		mh(0x80, msgs[0]),
 		{0x00}, {0x00, 0x05, 0x01},
 		e.rng.Bytes(1 + e.rng.Intn(20)),
 	}
